@@ -93,7 +93,7 @@ PROPS = {
                       "and ends the connection after a correct prefix when short; other requests never disturb the opened object.",
     },
     "C03": {
-        "jobs": [sess_job(140, 2500)],
+        "jobs": [sess_job(140, 2500), {"cmd": "bigdir", "quick": 4, "thorough": 44, "timeout": 3000}],
         "rule": SESS_RULE, "assumptions": SESS_ASSUME, "partial": [],
         "level_text": "Theorems C03_consumes (parse inverts the documented wire format and consumes exactly 16+announced bytes), C03_stream (the byte-level "
                       "server refines the request-level semantics for every request sequence, any state, any unfinished tail), C03_shape (every response has the "
@@ -113,7 +113,8 @@ PROPS = {
     },
     "C06": {
         "jobs": [sess_job(120, 2500, keep_ops=["open_dir", "dir_entry", "dir_entry_v2", "read_dir", "stat", "dir_size"]),
-                 {"cmd": "links", "quick": 150, "thorough": 5000, "timeout": 3000}],
+                 {"cmd": "links", "quick": 150, "thorough": 5000, "timeout": 3000},
+                 {"cmd": "bigdir", "quick": 4, "thorough": 44, "timeout": 3000}],
         "rule": SESS_RULE, "assumptions": SESS_ASSUME,
         "partial": ["symlinks (resolved / dangling omitted) are outside the Coq model and judged by the direct oracle only"],
         "level_text": "Theorems C06_opendir, C06_bulk (READ_DIR = one record per statable entry, a permutation of the directory, true fields), "
